@@ -100,9 +100,12 @@ class FormulaManager(object):
             return n
         else:
             n = FNode(content, self._next_free_id)
+            # The node is registered (and its id consumed) only once it
+            # has passed the type check: a rejected construction must
+            # leave no trace in the manager
+            self._do_type_check(n)
             self._next_free_id += 1
             self.formulae[content] = n
-            self._do_type_check(n)
             return n
 
     def _create_symbol(self, name: str, typename: PySMTType=types.BOOL) -> FNode:
